@@ -7,6 +7,7 @@ import (
 	"fmt"
 	"os"
 	"path/filepath"
+	"strings"
 	"sync"
 	"time"
 
@@ -70,6 +71,8 @@ type Env struct {
 	started  bool
 	// WhyNotIdle describes what was busy when WaitIdle last gave up
 	WhyNotIdle string
+	// AddMonitorFaults: "hook/binding" -> number of times AddMonitor fails for that binding (set before Assemble)
+	AddMonitorFaults map[string]int
 }
 
 // New creates scratch space, an empty hooks tree and a fake cluster with the given namespaces.
@@ -89,9 +92,37 @@ func New(prefix string, fc *fake.Cluster) (*Env, error) {
 	return e, nil
 }
 
+// faultyKEM lets AddMonitor fail a number of times for chosen bindings (as a kind that is not served yet would).
+type faultyKEM struct {
+	kem.KubeEventsManager
+	mu     *sync.Mutex
+	faults map[string]int // "hook/binding" -> remaining failures
+}
+
+func (f *faultyKEM) AddMonitor(cfg *kem.MonitorConfig) error {
+	f.mu.Lock()
+	defer f.mu.Unlock()
+	for key, left := range f.faults {
+		hook, binding, _ := strings.Cut(key, "/")
+		if left > 0 && cfg.Metadata.LogLabels["hook"] == hook && strings.HasSuffix(cfg.Metadata.DebugName, "{"+binding+"}") {
+			f.faults[key] = left - 1
+			return fmt.Errorf("injected: the kind of binding %s is not served by the cluster yet", binding)
+		}
+	}
+	return f.KubeEventsManager.AddMonitor(cfg)
+}
+
 // Assemble loads the hooks with the real initialization code (VerifAssemble).
 func (e *Env) Assemble() error {
 	kem.DefaultFactoryStore.Reset()
+	shop.VerifWrapKubeEventsManager = nil
+	if len(e.AddMonitorFaults) > 0 {
+		faults := e.AddMonitorFaults
+		var mu sync.Mutex
+		shop.VerifWrapKubeEventsManager = func(inner kem.KubeEventsManager) kem.KubeEventsManager {
+			return &faultyKEM{KubeEventsManager: inner, mu: &mu, faults: faults}
+		}
+	}
 	e.ctx, e.cancel = context.WithCancel(context.Background())
 	logger := log.NewNop()
 	if os.Getenv("VERIF_LOG") != "" {
